@@ -5,7 +5,7 @@ set -e
 B=$1; shift
 cd "$(dirname "$0")/.."
 pat=$(echo "$@" | tr ' ' '|')
-files=$(git diff --name-only 5f9ff33 "$B" | grep -E "($pat)" | grep -v -E '^(evidence/)' || true)
+files=$(git diff --name-only ${MERGE_BASE:-cc05d3c} "$B" | grep -E "($pat)" | grep -v -E '^(evidence/)' || true)
 echo "$files"
 for f in $files; do
   if git cat-file -e "$B:$f" 2>/dev/null; then mkdir -p "$(dirname "$f")"; git show "$B:$f" > "$f"; fi
